@@ -19,6 +19,23 @@ import (
 // behind) are inputs too.
 func init() {
 	register("gc", func(r *gen.R, n int, c *caseWriter) {
+		// the witness of Props/C02.v (C02_collector_sent_counts_refuted) runs first: model and code must agree on it
+		{
+			nodes := []server.VerifGCNode{{Direct: 1, State: 5, Refs: []int{2}, Present: true}, {Direct: 1, State: 5, Refs: []int{2}, Present: true},
+				{Indirect: 2, IndirectSent: 2, State: 5, Present: true}}
+			out, pt := server.VerifGC(nodes, "direct", 0, false, 1)
+			spec := make([]string, len(nodes))
+			res := make([]string, len(nodes))
+			for j, nd := range nodes {
+				spec[j] = fmt.Sprintf("%d,%d,%d,%d,%s,%s", nd.Direct, nd.Indirect, nd.IndirectSent, nd.State, strings.ReplaceAll(ints(nd.Refs), ",", "+"), b2s(nd.Present))
+				if out[j].Present {
+					res[j] = fmt.Sprintf("%d,%d,%d,%d,1", out[j].Direct, out[j].Indirect, out[j].IndirectSent, out[j].State)
+				} else {
+					res[j] = "gone"
+				}
+			}
+			c.emit("gc", "direct", "0", "0", "1", strings.Join(spec, "|"), strings.Join(res, "|")+pt)
+		}
 		for i := 0; i < n; i++ {
 			k := 2 + r.Intn(5)
 			nodes := make([]server.VerifGCNode, k)
